@@ -9,7 +9,6 @@ import (
 	"os"
 	"os/exec"
 	"path/filepath"
-	"regexp"
 	"sort"
 	"strings"
 	"time"
@@ -19,50 +18,139 @@ import (
 
 // Replay of solver counterexamples on the compiled code.
 //
-// For an entry function whose parameters are "value-like" (integers, booleans, strings, byte slices and
-// arrays, structs and pointers to structs of those, protobuf messages) the model is turned into Go
-// literals, an in-package test is injected with `go test -overlay`, the real function is called under
-// recover(), and results plus final pointees are dumped as JSON. A safety obligation is reproduced when the
-// call panics; a postcondition is reproduced when the violated clause, re-evaluated by the spec evaluator on
-// the concrete pre/post values, is false.
+// Every non-trivial obligation keeps a snapshot: the innermost frame on the call stack whose function takes
+// only "value-like" parameters (integers, booleans, strings, byte slices and arrays, structs and pointers to
+// structs of those, protobuf messages), its symbolic arguments and the heap at that moment. When the solver
+// refutes the obligation, the model is substituted into those symbolic values, Go literals are generated,
+// an in-package test is injected with `go test -overlay`, the real function is called under recover(), and
+// results plus final pointees are dumped as JSON. A safety obligation is reproduced when the call panics; a
+// postcondition is reproduced when the violated clause, re-evaluated by the spec evaluator on the concrete
+// pre/post values, is false.
+
+type replaySnap struct {
+	Fn    *ssa.Function
+	Args  []Value
+	Heap  map[*Object]Value
+	Entry bool
+}
+
+func replayableType(t types.Type, depth int) bool {
+	if depth > 8 {
+		return false
+	}
+	if _, ok := opaqueSort(t); ok {
+		return true // zero value is used
+	}
+	switch u := t.Underlying().(type) {
+	case *types.Basic:
+		return u.Info()&(types.IsInteger|types.IsBoolean|types.IsString) != 0
+	case *types.Array:
+		return replayableType(u.Elem(), depth+1)
+	case *types.Slice:
+		return replayableType(u.Elem(), depth+1)
+	case *types.Pointer:
+		return replayableType(u.Elem(), depth+1)
+	case *types.Struct:
+		for i := 0; i < u.NumFields(); i++ {
+			f := u.Field(i)
+			if _, isIface := f.Type().Underlying().(*types.Interface); isIface {
+				continue // left nil
+			}
+			if !replayableType(f.Type(), depth+1) {
+				return false
+			}
+		}
+		return true
+	}
+	return false
+}
+
+func replayableFn(fn *ssa.Function) bool {
+	if fn == nil || fn.Pkg == nil || fn.Parent() != nil || fn.Synthetic != "" {
+		return false
+	}
+	for _, p := range fn.Params {
+		if !replayableType(p.Type(), 0) {
+			return false
+		}
+	}
+	// struct fields of interface type inside parameters must not be dereferenced: only accept when no
+	// parameter (transitively) contains an interface field that is a dependency (heuristic: receiver structs
+	// with interface fields are service objects, not values)
+	for _, p := range fn.Params {
+		if hasIfaceField(p.Type(), 0) {
+			return false
+		}
+	}
+	return true
+}
+
+func hasIfaceField(t types.Type, depth int) bool {
+	if depth > 8 {
+		return false
+	}
+	if _, ok := opaqueSort(t); ok {
+		return false
+	}
+	switch u := t.Underlying().(type) {
+	case *types.Pointer:
+		return hasIfaceField(u.Elem(), depth+1)
+	case *types.Slice:
+		return hasIfaceField(u.Elem(), depth+1)
+	case *types.Array:
+		return hasIfaceField(u.Elem(), depth+1)
+	case *types.Struct:
+		for i := 0; i < u.NumFields(); i++ {
+			ft := u.Field(i).Type()
+			if it, ok := ft.Underlying().(*types.Interface); ok {
+				// `any`-typed payload fields (Transaction.ID) are fine, method-bearing interfaces are dependencies
+				if it.NumMethods() > 0 {
+					return true
+				}
+				continue
+			}
+			if hasIfaceField(ft, depth+1) {
+				return true
+			}
+		}
+	}
+	return false
+}
+
+func (ex *Exec) snapshot(st *State, entryPre bool) *replaySnap {
+	if len(st.Frames) == 0 {
+		return nil
+	}
+	if entryPre {
+		fr := st.Frames[0]
+		if !replayableFn(fr.Fn) {
+			return nil
+		}
+		return &replaySnap{Fn: fr.Fn, Args: fr.Args, Heap: st.PreHeap, Entry: true}
+	}
+	for i := len(st.Frames) - 1; i >= 0; i-- {
+		fr := st.Frames[i]
+		if replayableFn(fr.Fn) && fr.Args != nil {
+			h := make(map[*Object]Value, len(st.Heap))
+			for k, v := range st.Heap {
+				h[k] = v
+			}
+			return &replaySnap{Fn: fr.Fn, Args: fr.Args, Heap: h, Entry: i == 0}
+		}
+	}
+	return nil
+}
 
 type replayCtx struct {
 	ex      *Exec
-	model   map[string]string
+	model   map[string]*Term
 	imports map[string]string // path -> name
 	pkg     *types.Package
-	used    map[string]int
 	unsup   string
-	st      *State
-}
-
-var trailingNum = regexp.MustCompile(`_\d+$`)
-
-func (rc *replayCtx) lookup(hint string) (string, bool) {
-	h := sanitize(hint)
-	var cands []string
-	for k := range rc.model {
-		if trailingNum.ReplaceAllString(k, "") == h {
-			cands = append(cands, k)
-		}
-	}
-	if len(cands) == 0 {
-		return "", false
-	}
-	sort.Slice(cands, func(i, j int) bool { return numSuffix(cands[i]) < numSuffix(cands[j]) })
-	i := rc.used[h]
-	if i >= len(cands) {
-		i = len(cands) - 1
-	}
-	rc.used[h]++
-	return rc.model[cands[i]], true
-}
-
-func numSuffix(s string) int {
-	m := trailingNum.FindString(s)
-	n := 0
-	fmt.Sscanf(m, "_%d", &n)
-	return n
+	st      *State // concrete state built for clause re-evaluation
+	heap    map[*Object]Value
+	objMap  map[*Object]*Object
+	filler  map[int]string
 }
 
 func (rc *replayCtx) qual(p *types.Package) string {
@@ -77,133 +165,216 @@ func (rc *replayCtx) qual(p *types.Package) string {
 	return n
 }
 
-func (rc *replayCtx) typeStr(t types.Type) string {
-	return types.TypeString(t, rc.qual)
+func (rc *replayCtx) typeStr(t types.Type) string { return types.TypeString(t, rc.qual) }
+
+// concInt evaluates an integer/boolean term under the model; unassigned symbols default to 0/false.
+func (rc *replayCtx) conc(t *Term) *Term {
+	r := t.Subst(rc.model)
+	if r.IsConstInt() || r.IsConstBool() {
+		return r
+	}
+	// default the remaining free variables
+	def := map[string]*Term{}
+	r.Walk(func(x *Term) {
+		if x.Op == "var" {
+			switch x.Sort {
+			case SInt:
+				def[x.Name] = IntC(0)
+			case SBool:
+				def[x.Name] = TFalse
+			}
+		}
+	})
+	r = r.Subst(def)
+	return r
 }
 
-func fillBytes(n int, seed string) []byte {
+func (rc *replayCtx) concInt(t *Term) (*big.Int, bool) {
+	r := rc.conc(t)
+	if r.IsConstInt() {
+		return r.I, true
+	}
+	return big.NewInt(0), false
+}
+
+func (rc *replayCtx) concBool(t *Term, def bool) bool {
+	r := rc.conc(t)
+	if r.IsConstBool() {
+		return r.B
+	}
+	return def
+}
+
+func (rc *replayCtx) fill(id, n int) string {
 	b := make([]byte, n)
-	h := 7
-	for _, c := range seed {
-		h = h*31 + int(c)
-	}
 	for i := range b {
-		b[i] = byte('a' + (h+i)%26)
+		b[i] = byte('a' + (id*7+i)%26)
 	}
-	return b
+	return string(b)
 }
 
-// gen produces a Go expression and the corresponding symbolic-executor value for type t.
-func (rc *replayCtx) gen(t types.Type, hint string, depth int) (string, Value) {
-	if depth > 12 {
+func (rc *replayCtx) bytesOf(t *Term) string {
+	// literal string constants keep their content
+	if t.Op == "app" && len(t.Args) == 0 {
+		if lit, ok := rc.ex.G.strLits[t.Name]; ok {
+			return lit
+		}
+	}
+	n, _ := rc.concInt(rc.ex.G.BLen(t))
+	if n.Sign() < 0 || n.Cmp(big.NewInt(1<<20)) > 0 {
+		rc.unsup = "model asks for a byte string of length " + n.String()
+		return ""
+	}
+	return rc.fill(t.ID(), int(n.Int64()))
+}
+
+func (rc *replayCtx) objContent(o *Object) (Value, bool) {
+	if v, ok := rc.heap[o]; ok {
+		return v, true
+	}
+	return nil, false
+}
+
+// gen produces a Go expression and the concrete executor value for the symbolic value v of type t.
+// v may be nil (unknown): a default is generated.
+func (rc *replayCtx) gen(t types.Type, v Value, depth int) (string, Value) {
+	if depth > 14 {
 		rc.unsup = "input too deep"
 		return "nil", nil
 	}
 	if _, ok := opaqueSort(t); ok {
-		// external struct types (time.Time, mutexes, protobuf internals): zero value
 		return rc.typeStr(t) + "{}", rc.ex.G.Zero(t)
 	}
 	switch u := t.Underlying().(type) {
 	case *types.Basic:
 		switch {
 		case u.Info()&types.IsInteger != 0:
-			v, ok := rc.lookup(hint)
-			if !ok {
-				v = "0"
-			}
-			bi, _ := new(big.Int).SetString(v, 10)
-			if bi == nil {
-				bi = big.NewInt(0)
+			bi := big.NewInt(0)
+			if tv, ok := v.(*Term); ok && tv.Sort == SInt {
+				bi, _ = rc.concInt(tv)
 			}
 			return fmt.Sprintf("%s(%s)", rc.typeStr(t), bi.String()), IntB(bi)
 		case u.Info()&types.IsBoolean != 0:
-			v, _ := rc.lookup(hint)
-			return fmt.Sprintf("%s(%v)", rc.typeStr(t), v == "true"), BoolC(v == "true")
+			b := false
+			if tv, ok := v.(*Term); ok && tv.Sort == SBool {
+				b = rc.concBool(tv, false)
+			}
+			return fmt.Sprintf("%s(%v)", rc.typeStr(t), b), BoolC(b)
 		case u.Info()&types.IsString != 0:
-			n := 0
-			if v, ok := rc.lookup(hint + "_len"); ok {
-				fmt.Sscanf(v, "%d", &n)
+			s := ""
+			if tv, ok := v.(*Term); ok && tv.Sort == SB {
+				s = rc.bytesOf(tv)
 			}
-			if n > 1<<20 {
-				rc.unsup = "model asks for a huge string"
-				n = 0
-			}
-			b := fillBytes(n, hint)
-			return fmt.Sprintf("%s(%q)", rc.typeStr(t), string(b)), rc.ex.G.StrConst(string(b))
+			return fmt.Sprintf("%s(%q)", rc.typeStr(t), s), rc.ex.G.StrConst(s)
 		}
 	case *types.Array:
-		if isByte(u.Elem()) {
-			b := fillBytes(int(u.Len()), hint)
-			if isByteArray(u) {
-				return fmt.Sprintf("%s(mustArr%d(%q))", rc.typeStr(t), u.Len(), string(b)), rc.ex.G.StrConst(string(b))
+		if isByteArray(u) {
+			s := rc.fill(7, int(u.Len()))
+			if tv, ok := v.(*Term); ok && tv.Sort == SB {
+				s = rc.fill(tv.ID(), int(u.Len()))
+				if tv.Op == "app" && tv.Name == "bzero" {
+					s = string(make([]byte, u.Len()))
+				}
 			}
+			return fmt.Sprintf("func() (a %s) { copy(a[:], %q); return }()", rc.typeStr(t), s), rc.ex.G.StrConst(s)
 		}
 		if u.Len() <= 64 {
+			av, _ := v.(*ArrV)
 			var parts []string
 			a := &ArrV{Elem: u.Elem()}
 			for i := 0; i < int(u.Len()); i++ {
-				e, v := rc.gen(u.Elem(), fmt.Sprintf("%s_%d", hint, i), depth+1)
+				var ev Value
+				if av != nil && i < len(av.E) {
+					ev = av.E[i]
+				}
+				e, cv := rc.gen(u.Elem(), ev, depth+1)
 				parts = append(parts, e)
-				a.E = append(a.E, v)
+				a.E = append(a.E, cv)
 			}
 			return fmt.Sprintf("%s{%s}", rc.typeStr(t), strings.Join(parts, ", ")), a
 		}
 	case *types.Struct:
+		svIn, _ := v.(*StructV)
 		sv := &StructV{T: u}
 		var parts []string
 		for i := 0; i < u.NumFields(); i++ {
 			f := u.Field(i)
-			if !f.Exported() && f.Pkg() != rc.pkg {
+			var fv Value
+			if svIn != nil && i < len(svIn.F) {
+				fv = svIn.F[i]
+			}
+			if _, isIface := f.Type().Underlying().(*types.Interface); isIface || (!f.Exported() && f.Pkg() != rc.pkg) {
 				sv.F = append(sv.F, rc.ex.G.Zero(f.Type()))
 				continue
 			}
-			if _, isIface := f.Type().Underlying().(*types.Interface); isIface {
-				sv.F = append(sv.F, rc.ex.G.Zero(f.Type()))
-				continue
-			}
-			e, v := rc.gen(f.Type(), hint+"_"+f.Name(), depth+1)
-			sv.F = append(sv.F, v)
+			e, cv := rc.gen(f.Type(), fv, depth+1)
+			sv.F = append(sv.F, cv)
 			parts = append(parts, f.Name()+": "+e)
 		}
 		return fmt.Sprintf("%s{%s}", rc.typeStr(t), strings.Join(parts, ", ")), sv
 	case *types.Pointer:
-		v, ok := rc.lookup(hint + "_isnil")
-		if ok && v == "true" {
+		pv, _ := v.(*PtrV)
+		if pv != nil && (pv.Obj == nil || rc.concBool(pv.Nil, false)) {
 			return fmt.Sprintf("(%s)(nil)", rc.typeStr(t)), &PtrV{Nil: TTrue}
 		}
-		e, val := rc.gen(u.Elem(), hint+"_p", depth+1)
-		obj := rc.ex.G.NewObject(u.Elem(), hint)
+		var content Value
+		if pv != nil && pv.Obj != nil {
+			if c, ok := rc.objContent(pv.Obj); ok {
+				content = rc.ex.readPath(rc.st, c, pv.Path, pv.Obj.Typ)
+			}
+			if len(pv.Path) == 0 {
+				if no, ok := rc.objMap[pv.Obj]; ok {
+					_ = no // aliasing of inputs is not reconstructed: a second pointer to the same object gets a copy
+				}
+			}
+		}
+		e, cv := rc.gen(u.Elem(), content, depth+1)
+		obj := rc.ex.G.NewObject(u.Elem(), "replay_in")
 		obj.Sym = true
-		rc.st.Heap[obj] = val
-		rc.st.PreHeap[obj] = val
+		rc.st.Heap[obj] = cv
+		rc.st.PreHeap[obj] = cv
+		if pv != nil && pv.Obj != nil {
+			rc.objMap[pv.Obj] = obj
+		}
 		if _, isStruct := u.Elem().Underlying().(*types.Struct); isStruct && strings.HasSuffix(e, "}") {
 			return "&" + e, &PtrV{Nil: TFalse, Obj: obj}
 		}
 		return fmt.Sprintf("ptrTo(%s)", e), &PtrV{Nil: TFalse, Obj: obj}
 	case *types.Slice:
+		sl, _ := v.(*SliceV)
 		if isByte(u.Elem()) {
-			if v, ok := rc.lookup(hint + "_isnil"); ok && v == "true" {
+			if sl != nil && sl.Obj == nil {
 				return fmt.Sprintf("%s(nil)", rc.typeStr(t)), &SliceV{Nil: TTrue, Off: IntC(0), Len: IntC(0), Cap: IntC(0), Elem: u.Elem()}
 			}
-			n := 0
-			if v, ok := rc.lookup(hint + "_content_len"); ok {
-				fmt.Sscanf(v, "%d", &n)
+			s := ""
+			if sl != nil {
+				n, _ := rc.concInt(sl.Len)
+				if n.Sign() < 0 || n.Cmp(big.NewInt(1<<20)) > 0 {
+					rc.unsup = "model asks for a byte slice of length " + n.String()
+					n = big.NewInt(0)
+				}
+				id := 3
+				if c, ok := rc.objContent(sl.Obj); ok {
+					if ct, ok := rc.ex.readPath(rc.st, c, sl.Path, sl.Obj.Typ).(*Term); ok {
+						id = ct.ID()
+					}
+				}
+				s = rc.fill(id, int(n.Int64()))
 			}
-			if n > 1<<20 {
-				rc.unsup = "model asks for a huge byte slice"
-				n = 0
-			}
-			b := fillBytes(n, hint)
-			obj := rc.ex.G.NewObject(t, hint)
+			obj := rc.ex.G.NewObject(t, "replay_in")
 			obj.Sym = true
-			c := rc.ex.G.StrConst(string(b))
+			c := rc.ex.G.StrConst(s)
 			rc.st.Heap[obj] = c
 			rc.st.PreHeap[obj] = c
-			return fmt.Sprintf("%s(%q)", rc.typeStr(t), string(b)), &SliceV{Nil: TFalse, Obj: obj, Off: IntC(0), Len: IntC(int64(n)), Cap: IntC(int64(n)), Elem: u.Elem()}
+			n := int64(len(s))
+			return fmt.Sprintf("%s(%q)", rc.typeStr(t), s), &SliceV{Nil: TFalse, Obj: obj, Off: IntC(0), Len: IntC(n), Cap: IntC(n), Elem: u.Elem()}
 		}
 		n := 0
-		if v, ok := rc.lookup(hint + "_len"); ok {
-			fmt.Sscanf(v, "%d", &n)
+		if sl != nil {
+			bn, _ := rc.concInt(sl.Len)
+			if bn.IsInt64() && bn.Int64() > 0 {
+				n = int(bn.Int64())
+			}
 		}
 		if n > 64 {
 			n = 64
@@ -211,16 +382,50 @@ func (rc *replayCtx) gen(t types.Type, hint string, depth int) (string, Value) {
 		var parts []string
 		a := &ArrV{Elem: u.Elem()}
 		for i := 0; i < n; i++ {
-			// elements of message slices are non-nil (A9)
-			e, v := rc.gen(u.Elem(), hint+"_el", depth+1)
+			var ev Value
+			if sl != nil && sl.Obj != nil {
+				if c, ok := rc.objContent(sl.Obj); ok {
+					back := rc.ex.readPath(rc.st, c, sl.Path, sl.Obj.Typ)
+					switch b := back.(type) {
+					case *ArrV:
+						off, _ := rc.concInt(sl.Off)
+						k := int(off.Int64()) + i
+						if k < len(b.E) {
+							ev = b.E[k]
+						}
+					case *SymSeq:
+						for _, kv := range b.Known {
+							_ = kv
+						}
+						// known elements are keyed by symbolic index terms; match those whose index evaluates to i
+						for key, kv := range b.Known {
+							if tm, ok := internTab[key]; ok {
+								if ci, ok := rc.concInt(Sub(tm, sl.Off)); ok && ci.IsInt64() && int(ci.Int64()) == i {
+									ev = kv
+								}
+							}
+						}
+					}
+				}
+			}
+			if ev == nil {
+				// elements of message slices are non-nil (A9)
+				if pt, ok := u.Elem().Underlying().(*types.Pointer); ok {
+					o := rc.ex.G.NewObject(pt.Elem(), "el")
+					ev = &PtrV{Nil: TFalse, Obj: o}
+				}
+			}
+			e, cv := rc.gen(u.Elem(), ev, depth+1)
 			parts = append(parts, e)
-			a.E = append(a.E, v)
+			a.E = append(a.E, cv)
 		}
-		obj := rc.ex.G.NewObject(t, hint)
+		obj := rc.ex.G.NewObject(t, "replay_in")
 		obj.Sym = true
 		rc.st.Heap[obj] = a
 		rc.st.PreHeap[obj] = a
 		return fmt.Sprintf("%s{%s}", rc.typeStr(t), strings.Join(parts, ", ")), &SliceV{Nil: BoolC(n == 0), Obj: obj, Off: IntC(0), Len: IntC(int64(n)), Cap: IntC(int64(n)), Elem: u.Elem()}
+	case *types.Interface:
+		return "nil", &IfaceV{ID: IntC(0)}
 	}
 	rc.unsup = "input type " + t.String() + " has no replay generator"
 	return "nil", nil
@@ -228,10 +433,6 @@ func (rc *replayCtx) gen(t types.Type, hint string, depth int) (string, Value) {
 
 const replayHelpers = `
 func ptrTo[T any](v T) *T { return &v }
-func mustArr32(s string) (a [32]byte) { copy(a[:], s); return }
-func mustArr64(s string) (a [64]byte) { copy(a[:], s); return }
-func mustArr12(s string) (a [12]byte) { copy(a[:], s); return }
-func mustArr16(s string) (a [16]byte) { copy(a[:], s); return }
 
 func gocvDump(v reflect.Value, d int) interface{} {
 	if d > 10 { return "…" }
@@ -258,7 +459,7 @@ func gocvDump(v reflect.Value, d int) interface{} {
 		}
 		var l []interface{}
 		for i := 0; i < v.Len() && i < 64; i++ { l = append(l, gocvDump(v.Index(i), d+1)) }
-		return map[string]interface{}{"list": l}
+		return map[string]interface{}{"list": l, "len": v.Len()}
 	}
 	return "?"
 }
@@ -271,6 +472,7 @@ type replayResult struct {
 	File       string
 	Reproduced bool
 	Note       string
+	Fn         string
 }
 
 // fromDump converts a dumped JSON value back into an executor value of type t.
@@ -325,6 +527,16 @@ func (rc *replayCtx) fromDump(t types.Type, j interface{}) Value {
 			b, _ := hex.DecodeString(hs)
 			return rc.ex.G.StrConst(string(b))
 		}
+		if isByte(u.Elem()) {
+			m, _ := j.(map[string]interface{})
+			hs, _ := m["hex"].(string)
+			b, _ := hex.DecodeString(hs)
+			a := &ArrV{Elem: u.Elem()}
+			for _, x := range b {
+				a.E = append(a.E, IntC(int64(x)))
+			}
+			return a
+		}
 	case *types.Slice:
 		if isByte(u.Elem()) {
 			m, _ := j.(map[string]interface{})
@@ -336,23 +548,52 @@ func (rc *replayCtx) fromDump(t types.Type, j interface{}) Value {
 			isNil, _ := m["nil"].(bool)
 			return &SliceV{Nil: BoolC(isNil), Obj: obj, Off: IntC(0), Len: IntC(n), Cap: IntC(n), Elem: u.Elem()}
 		}
+		m, _ := j.(map[string]interface{})
+		l, _ := m["list"].([]interface{})
+		a := &ArrV{Elem: u.Elem()}
+		for _, e := range l {
+			a.E = append(a.E, rc.fromDump(u.Elem(), e))
+		}
+		obj := rc.ex.G.NewObject(t, "replay")
+		rc.st.Heap[obj] = a
+		n := int64(len(a.E))
+		return &SliceV{Nil: BoolC(n == 0), Obj: obj, Off: IntC(0), Len: IntC(n), Cap: IntC(n), Elem: u.Elem()}
 	}
 	return rc.ex.G.Zero(t)
 }
 
-func (ex *Exec) replayValueFunction(fn *ssa.Function, ob *Obligation, workDir, repo string) *replayResult {
+func (ex *Exec) replayValueFunction(ob *Obligation, workDir string) *replayResult {
 	res := &replayResult{}
-	if fn == nil || fn.Pkg == nil || ob.Model == nil {
-		res.Note = "no model or no entry function"
+	snap := ob.Snap
+	if snap == nil || snap.Fn == nil || ob.Model == nil {
+		res.Note = "no replayable frame on the call stack (service objects with interface dependencies) or no model"
 		return res
 	}
-	rc := &replayCtx{ex: ex, model: ob.Model, imports: map[string]string{}, pkg: fn.Pkg.Pkg, used: map[string]int{},
+	fn := snap.Fn
+	res.Fn = fn.String()
+	rc := &replayCtx{ex: ex, model: map[string]*Term{}, imports: map[string]string{}, pkg: fn.Pkg.Pkg, heap: snap.Heap, objMap: map[*Object]*Object{},
 		st: &State{Heap: map[*Object]Value{}, PreHeap: map[*Object]Value{}, Ghost: map[string]Value{}, Held: map[string]int{}}}
+	for k, v := range ob.Model {
+		switch v {
+		case "true":
+			rc.model[k] = TTrue
+		case "false":
+			rc.model[k] = TFalse
+		default:
+			if bi, ok := new(big.Int).SetString(v, 10); ok {
+				rc.model[k] = IntB(bi)
+			}
+		}
+	}
 	var decl []string
 	var args []Value
 	var argNames []string
 	for i, p := range fn.Params {
-		e, v := rc.gen(p.Type(), p.Name(), 0)
+		var av Value
+		if i < len(snap.Args) {
+			av = snap.Args[i]
+		}
+		e, v := rc.gen(p.Type(), av, 0)
 		if rc.unsup != "" {
 			res.Note = rc.unsup
 			return res
@@ -393,7 +634,7 @@ func (ex *Exec) replayValueFunction(fn *ssa.Function, ob *Obligation, workDir, r
 		fmt.Fprintf(&body, "\t%s\n", call)
 	}
 	var src strings.Builder
-	fmt.Fprintf(&src, "package %s\n\n// generated by gocv: replay of obligation %s\n// model: %v\n\nimport (\n\t\"encoding/hex\"\n\t\"encoding/json\"\n\t\"fmt\"\n\t\"os\"\n\t\"reflect\"\n\t\"strconv\"\n\t\"testing\"\n", fn.Pkg.Pkg.Name(), ob.Name, trimModel(ob.Model))
+	fmt.Fprintf(&src, "package %s\n\n// generated by gocv: replay of obligation %s\n// called function: %s\n// model: %v\n\nimport (\n\t\"encoding/hex\"\n\t\"encoding/json\"\n\t\"fmt\"\n\t\"os\"\n\t\"reflect\"\n\t\"strconv\"\n\t\"testing\"\n", fn.Pkg.Pkg.Name(), ob.Name, fn.String(), trimModel(ob.Model))
 	var ips []string
 	for p := range rc.imports {
 		ips = append(ips, p)
@@ -412,11 +653,9 @@ func (ex *Exec) replayValueFunction(fn *ssa.Function, ob *Obligation, workDir, r
 	genFile := filepath.Join(workDir, base+"_test.go")
 	os.WriteFile(genFile, []byte(src.String()), 0o644)
 	res.File = genFile
-	// locate the package directory
 	pkgDir := ""
-	fset := ex.Prog.Fset
 	if fn.Pos().IsValid() {
-		pkgDir = filepath.Dir(fset.Position(fn.Pos()).Filename)
+		pkgDir = filepath.Dir(ex.Prog.Fset.Position(fn.Pos()).Filename)
 	}
 	if pkgDir == "" {
 		res.Note = "cannot locate package directory"
@@ -445,7 +684,7 @@ func (ex *Exec) replayValueFunction(fn *ssa.Function, ob *Obligation, workDir, r
 	}
 	b, err := os.ReadFile(outFile)
 	if err != nil {
-		res.Note = "replay did not run: " + firstLines(string(outb), 6)
+		res.Note = "replay did not run: " + firstLines(string(outb), 8)
 		return res
 	}
 	res.Ran = true
@@ -460,8 +699,8 @@ func (ex *Exec) replayValueFunction(fn *ssa.Function, ob *Obligation, workDir, r
 		}
 		return res
 	}
-	if ob.Clause == nil {
-		res.Note = "no clause to re-evaluate"
+	if ob.Clause == nil || !snap.Entry {
+		res.Note = "no clause to re-evaluate at this frame"
 		return res
 	}
 	if res.Panic != "" {
@@ -469,7 +708,6 @@ func (ex *Exec) replayValueFunction(fn *ssa.Function, ob *Obligation, workDir, r
 		res.Note = "real code panicked: " + res.Panic
 		return res
 	}
-	// rebuild the post-state and evaluate the violated clause concretely
 	for i, p := range fn.Params {
 		if pt, ok := p.Type().Underlying().(*types.Pointer); ok {
 			if pv, ok := args[i].(*PtrV); ok && pv.Obj != nil {
@@ -513,9 +751,7 @@ func replayDispatch(id string, g *nameGroup, path string) string {
 	if g.Fail == nil || replayExec == nil {
 		return " no-failing-input-found"
 	}
-	fn := replayFns[g.Fail.Entry]
-	r := replayExec.replayValueFunction(fn, g.Fail, filepath.Join(verifRoot, "work", "replay", id), "")
-	// append the outcome to the replay record
+	r := replayExec.replayValueFunction(g.Fail, filepath.Join(verifRoot, "work", "replay", id))
 	var rec map[string]interface{}
 	if b, err := os.ReadFile(path); err == nil {
 		json.Unmarshal(b, &rec)
@@ -524,6 +760,7 @@ func replayDispatch(id string, g *nameGroup, path string) string {
 		rec = map[string]interface{}{}
 	}
 	rec["replay_ran"] = r.Ran
+	rec["replay_function"] = r.Fn
 	rec["replay_reproduced"] = r.Reproduced
 	rec["replay_note"] = r.Note
 	rec["replay_panic"] = r.Panic
